@@ -47,7 +47,7 @@ BOUNDS = {
   "quick": "configuration sweep: 6 inputs (TTML, SCC, 2 STL, SRT, VTT) x 3 outputs x 157 configurations (none, {}, every "
            "documented key with its valid+boundary menu one at a time, per-module products of 2-valued domains, a "
            "cross-module product) x filters {[],[lcd]}; option sweep: 5 inputs x 3 outputs x 3 filter lists x 6 input-type "
-           "selections x 5 output-type selections x {none, --config, --config_file, both, both with a file of one section, both with a file of one key per section}; filter sweep: 5 inputs x 3 "
+           "selections x 5 output-type selections x {none, --config, --config_file, both, both with a file of one section, both with a file of one key per section, both with an empty file}; filter sweep: 5 inputs x 3 "
            "outputs x all 85 sequences of <= 3 names over {lcd, 2 probe filters, unknown} x {no, with configuration}; "
            "invalid menus (wrong JSON type, out of range, unknown keyword, malformed, null) for all 19 documented keys "
            "on every pipeline that parses the module x {--config, --config_file}; unsupported types/extensions/"
@@ -643,7 +643,8 @@ IN_MODES = ["ext", "EXT", "Ext", "itype", "ITYPE+other-ext", "Itype+no-ext"]
 OUT_MODES = ["ext", "EXT", "Ext", "otype+neutral-ext", "OTYPE+other-ext"]
 # both-sections: the file holds one section only, the inline configuration all of them (a section-wise merge leaks the others);
 # both-keys: the file holds one key of every section, the inline configuration all keys (a key-wise merge leaks the others)
-DELIVERY = ["none", "inline", "file", "both", "both-sections", "both-keys"]
+# both-empty-file: the file is the empty object (the smallest configuration): it still replaces the inline configuration
+DELIVERY = ["none", "inline", "file", "both", "both-sections", "both-keys", "both-empty-file"]
 
 
 def _mixed(s):
@@ -677,6 +678,9 @@ def _deliver(job, mode, cfg, decoy):
     job["config"] = decoy
   elif mode == "both-sections":
     job["config_file"] = {"general": decoy["general"]}
+    job["config"] = cfg
+  elif mode == "both-empty-file":
+    job["config_file"] = {}
     job["config"] = cfg
   elif mode == "both-keys":
     job["config_file"] = {sec: dict(list(keys.items())[:1]) for sec, keys in cfg.items()}
